@@ -392,6 +392,18 @@ Theorem C02_dictid_prefix_frame :
 Proof. exact prefix_frame. Qed.
 Print Assumptions C02_dictid_prefix_frame.
 
+(* a pending single-use prefix and ONE ZSTD_decompressDCtx call over any frames: every frame of the call is decoded from the prefix, and
+   the prefix is used up iff no frame was refused - a call that fails leaves it pending (the code after fix b87b37f, finding
+   C02-oneshot-failed-call-uses-up-prefix) *)
+Theorem C02_dictid_prefix_oneshot :
+  forall (D : Type) (did : D -> N) (s : ds D) (ids : list N),
+  ds_uses D s = UseOnce -> ds_local D s = true ->
+  Forall (fun r : fres D => fst (fst r) = ds_dict D s) (snd (ds_step D did s (IOneShot D ids))) /\
+  ds_dict D (fst (ds_step D did s (IOneShot D ids))) = ds_dict D s /\
+  ds_uses D (fst (ds_step D did s (IOneShot D ids))) = (if all_acc D (snd (ds_step D did s (IOneShot D ids))) then DontUse else UseOnce).
+Proof. exact prefix_oneshot. Qed.
+Print Assumptions C02_dictid_prefix_oneshot.
+
 (* streaming = single call, at the level of dictionary selection: from EVERY context state without a pending single-use prefix
    (its documented meaning differs: next frame / whole call), for EVERY non-empty list of frames (naming any IDs), feeding them one
    after the other to ZSTD_decompressStream and handing them all to one ZSTD_decompressDCtx call decode every frame from the same
